@@ -1,8 +1,8 @@
 CONSTANTS
-  MaxOps = 4
+  MaxOps = 5
   MaxModels = 4
   Dump = FALSE
-  BaseNames = {"A", "B", "A_BAK1"}
+  BaseNames = {"A", "B", "A_BAK1", "Model2"}
   BadNames = {"1x"}
   NFiles = 2
   EditKinds = {"defs", "value"}
